@@ -138,6 +138,8 @@ func (bw *BatchedWriter) Enqueue(object BatchWriteObject) {
 		return
 	}
 
+	verifYield("enqueue-after-running-check")
+
 	// abort if the very same object has been queued already
 	if object.BatchWriteScheduled() {
 		return
@@ -161,6 +163,8 @@ func (bw *BatchedWriter) Flush() {
 
 // runBatchWriter collects objects in batches and persists them to the KVStore.
 func (bw *BatchedWriter) runBatchWriter() {
+	verifYield("writer-goroutine-start")
+
 	bw.writeWg.Add(1)
 
 	for bw.running.Load() || bw.scheduledCount.Load() != 0 {
